@@ -42,6 +42,11 @@ def run(ctx: Ctx):
     from .common import generic_lints
 
     generic_lints(ctx)
+    from .common import value_any_lint
+
+    # "has subtrahends" is a question about the LENGTH of the index collection: any() / np.any() ask whether some offset is
+    # non-zero, and the difference that subtracts the FIRST element alone (offsets [0]) reads as "no subtrahends"
+    value_any_lint(ctx, "collection-any", shorts=("matrix/subtotals.py", "stripe/insertion.py", "dimension.py"))
     from .common import subtotal_free_types
 
     subtotal_free_types(ctx)
